@@ -46,7 +46,8 @@ def action_ops():
 
 def strategy(tier):
     nops = 24 if tier == "quick" else 40
-    ops = history.table_ops() + history.query_ops() + action_ops() + action_ops()
+    ops = (history.table_ops() + history.query_ops() + history.extra_ops()
+           + action_ops() + action_ops())
     return st.fixed_dictionaries(dict(
         pid0=st.sampled_from([False, False, False, True]),
         # which pool PIDs are alive at the start (bit i) and have an object
@@ -158,6 +159,8 @@ def run_case(case):
                         pass
             elif kind == "pids":
                 psutil.pids()
+            elif w.apply_extra(op):
+                pass
             else:
                 o = w.pick_obj(op[1])
                 if o is None:
@@ -167,8 +170,12 @@ def run_case(case):
             if k.group_signals:
                 raise Violation("process-group-signal",
                                 f"kill() called with pid <= 0: {k.group_signals} after op {op}")
+        w.close_blocks()
     if w.recycled_pids:
         labels.add("history-with-recycle")
+    for e in w.events:
+        if e[0] in ("oneshot-enter", "wait-returned"):
+            labels.add("history-with-" + e[0])
     return Result(sorted(labels) or ["no-action"], nontrivial or None)
 
 
